@@ -22,7 +22,7 @@ HasSt(r) == "st" \in DOMAIN r
 HasDisk(r) == "disk" \in DOMAIN r
 
 EmptyHist(r) == [accepted |-> {}, seen |-> <<>>, cValid |-> FALSE, cBase |-> Zero, cEmission |-> Zero,
-                 cfg |-> r.cfg, unit |-> r.unit, sc |-> r.sc, present |-> {}, cap |-> "10000000000000000000000000000", crashed |-> FALSE, restarts |-> 0, lastFault |-> "", synced |-> FALSE, imported |-> FALSE, diverged |-> FALSE]
+                 cfg |-> r.cfg, unit |-> r.unit, sc |-> r.sc, present |-> {}, cap |-> "10000000000000000000000000000", crashed |-> FALSE, restarts |-> 0, lastFault |-> "", synced |-> FALSE, imported |-> FALSE, diverged |-> FALSE, folded |-> FALSE]
 InitHist(r) == IF HasDisk(r) /\ HasSt(r)
                THEN [EmptyHist(r) EXCEPT !.cValid = TRUE, !.cBase = BaseTotal(r.disk), !.cEmission = r.st.emission]
                ELSE EmptyHist(r)
@@ -47,7 +47,7 @@ NextHist(r) ==
    ELSE IF r.kind = "Restart" THEN [hist EXCEPT !.restarts = @ + 1]
    ELSE IF r.kind = "BeginBlock" /\ "begin" \in DOMAIN r THEN [hist EXCEPT !.present = Range(r.begin.present)]
    ELSE IF r.kind = "Restored" THEN [hist EXCEPT !.synced = TRUE, !.cValid = FALSE]
-   ELSE IF r.kind = "Imported" THEN [hist EXCEPT !.imported = TRUE, !.cValid = FALSE]
+   ELSE IF r.kind = "Imported" THEN [hist EXCEPT !.imported = TRUE, !.cValid = FALSE, !.folded = ("rt" \in DOMAIN r /\ r.rt.folded)]
    ELSE hist
 
 TraceStep ==
